@@ -182,14 +182,14 @@ type Config struct {
 	KeepTrace     bool
 	WallLimit     time.Duration
 	OnSettled     func(g string)
-	OnForeignFire func(seq uint64)
+	OnForeignFire func(seq uint64, polled bool)
 }
 
 type Stats struct {
 	Steps, Switches, ClockJumps, VoluntaryClock, ForeignFired int
 	MapDecisions, MapNonSorted                                int
 	SelectMulti, MutexContended, ChanSendBlocked              int
-	Settled, TimersFired                                      int
+	Settled, TimersFired, BusyAdvance                         int
 }
 
 type Sim struct {
